@@ -112,6 +112,9 @@ func AnnotatedFamily(level int, visit func(*Model)) {
 	if level >= 3 {
 		kRoot = 3
 	}
+	if level >= 4 {
+		kRoot = 4
+	}
 	if level == 1 {
 		kRoot = 1
 	}
@@ -128,6 +131,9 @@ func AnnotatedFamily(level int, visit func(*Model)) {
 	kChild := 2
 	if level == 1 {
 		kChild = 1
+	}
+	if level >= 4 {
+		kChild = 3
 	}
 	var props, items []*SNode
 	Leaves(kChild, true, func(n *SNode) { props = append(props, n) })
